@@ -28,7 +28,9 @@ def _lib():
     if not _PATCHED[0]:
         # every lock the library creates - at import time, lazily, per object, through captured
         # factories - becomes a cooperative lock; everything else in the interpreter is untouched
-        pkg = S.import_with_cooperative_locks("permuta")
+        d = os.path.join(os.path.abspath(REPO), "permuta", "perm_sets")
+        pkg = S.import_with_cooperative_locks(
+            "permuta", instrument=[os.path.join(d, f) for f in os.listdir(d) if f.endswith(".py")])
         assert os.path.abspath(pkg.__file__).startswith(os.path.abspath(REPO) + os.sep), pkg.__file__
         import permuta.perm_sets.permset as permset
         mods = _ps_modules()
@@ -75,6 +77,7 @@ def watched_files():
 B012 = [("c", (0, 1, 2))]
 B2 = [("c", (0, 2, 1)), ("c", (0, 1, 2, 3))]
 BFIN = [("c", (0, 1, 2)), ("c", (1, 0))]
+BFIN2 = [("c", (0, 1, 2)), ("c", (2, 1, 0))]
 BMESH = [("m", (0, 1), ((1, 1),))]
 
 HARNESSES = {
@@ -87,6 +90,10 @@ HARNESSES = {
     "own-construction": (B2, None, True, [[("count", 3)], [("list", 2)]]),
     "finite-class": (BFIN, None, False, [[("list", 3)], [("count", 2)]]),
     "mesh": (BMESH, None, False, [[("count", 3)], [("list", 2)]]),
+    # one thread asks for a non-empty level that is not built yet while the other builds past the
+    # first EMPTY level of a finite class (a "the class has run out" shortcut must not fire early)
+    "finite-shallow": (BFIN, None, False, [[("count", 1)], [("count", 3)]]),
+    "finite-deeper": (BFIN2, None, False, [[("count", 2), ("list", 4)], [("count", 6)]]),
     "three-threads": (B012, None, False, [[("count", 3)], [("list", 2)], [("in", (2, 1, 0))]]),
     "three-threads-warm": (B2, 1, False, [[("list", 3)], [("count", 4)], [("upto", 2)]]),
     "four-threads": (B012, None, False, [[("count", 2)], [("list", 1)], [("in", (1, 0))], [("count", 3)]]),
@@ -162,7 +169,7 @@ class Harness:
     def run(self, prefix, expect=None, opcodes=False):
         shared = self.setup()
         ex = S.run_once(self.bodies(), prefix, shared, self.watched, opcodes=(opcodes is True),
-                        expect=expect, calls=(opcodes == "calls"))
+                        expect=expect, calls=(opcodes in ("calls", "expr")), expr=(opcodes == "expr"))
         # afterwards: the shared class still answers correctly when asked sequentially
         post = None
         if not ex.deadlock and not ex.hang:
@@ -225,7 +232,7 @@ def explore_roots(shard):
 
 
 def _gran(opcodes):
-    return "calls" if opcodes == "calls" else ("opcode" if opcodes else "line")
+    return opcodes if opcodes in ("calls", "expr") else ("opcode" if opcodes else "line")
 
 
 def explore_harness(ctx, name, bound, opcodes=False, max_exec=None):
@@ -279,24 +286,34 @@ def run(ctx, only=None):
                 "schedules), transitions = scheduling points passed")
     ctx.assumptions = [
         "CPython with the GIL: a thread switch can only happen between bytecodes; scheduling points "
-        "are line boundaries of the watched files, lock operations (creation, acquire) and - at "
-        "granularity 'calls' - entry/return of Python functions of other files called from a watched "
-        "line (opcode granularity is not used: instruction events are not reproducible under "
+        "are line boundaries of the watched files and of every state-writing function elsewhere in "
+        "the package, lock operations (creation, acquire), at granularity 'calls' also entry/return "
+        "of Python functions of other files called from a watched line, at granularity 'expr' also "
+        "after every attribute read, subscript read and call return inside the watched modules' "
+        "function bodies (identity calls woven into the AST at import; the code under test is "
+        "otherwise unchanged) (opcode granularity is not used: instruction events are not reproducible under "
         "adaptive specialisation)",
         "shared state of a class is only touched by code in permuta/perm_sets/*.py (watched)",
         "the library's lock objects are replaced from outside by cooperative locks"]
     plan = []   # (harness, bound, opcodes)
     two = ["count-vs-count", "list-vs-in", "upto-vs-count", "warm-deep-vs-list",
-           "two-queries-each", "own-construction", "finite-class", "mesh"]
-    small = ("count-vs-count", "finite-class", "mesh", "own-construction")
+           "two-queries-each", "own-construction", "finite-class", "mesh", "finite-shallow",
+           "finite-deeper"]
+    small = ("count-vs-count", "finite-class", "mesh", "own-construction", "finite-shallow")
     # "calls" = line boundaries PLUS the entry of / return from every Python function outside the
     # watched files that a watched line calls (a switch in the middle of the calling line); its
     # points are a superset of the line points, so it replaces the line run where it is used
+    # "expr" = "calls" PLUS a point after every attribute read, subscript read and call return in
+    # the function bodies of the watched modules (woven in at import, sched.instrument_source): a
+    # switch between two reads of shared state inside ONE source line
     if quick:
-        plan += [(h, 2, "calls" if h in small else False) for h in two]
+        qtwo = [h for h in two if h != "finite-deeper"]
+        plan += [(h, 1, "expr") for h in qtwo]
+        plan += [(h, 2, "calls" if h in small else False) for h in qtwo]
+        plan += [("finite-shallow", 2, "expr")]
         plan += [("three-threads", 1, False)]
     else:
-        plan += [(h, 2, "calls") for h in two]
+        plan += [(h, 2, "expr") for h in two]
         plan += [(h, 3, False) for h in small]
         plan += [("three-threads", 2, False), ("three-threads-warm", 1, False),
                  ("four-threads", 1, False)]
